@@ -32,7 +32,9 @@ RULE = ('scratch NP2.1 / NP2.4 recordings (385 channels, fixture meta data with 
         'lengths, ns = taper .. , every ns mod 12 class) and below one taper (error branch); optionally nsamples < file length. '
         'Structural cases compare, for EVERY shank file, LF row count, sync column, channel list, LF meta data (acqApLfSy, snsApLfSy, nSavedChans, '
         'fileSizeBytes, imSampRate, snsSaveChanSubset and _orig, shank number) and the shape spikeglx.Reader opens the file with against '
-        'the Lean model, and (scipy.signal.sosfiltfilt replaced by the identity) the voltage columns against AP[12 m] picked through '
+        'the Lean model; about a third of the cases (and of the numeric ones) make the examined extraction the 2nd/3rd one of the SAME converter object '
+        '(other window sizes before, overwrite=True) and demand the same answers from the history-free model plus byte identity with a fresh object; '
+        'and (scipy.signal.sosfiltfilt replaced by the identity) the voltage columns against AP[12 m] picked through '
         "the model's index map. Numeric cases (broadband content: white / gaussian / coloured noise, spikes, steps; amplitude within the "
         'NP2 ADC range +-8191) run two window sizes and compare LF values pairwise (<= 1 LSB) and with whole-trace sosfiltfilt + [::12] '
         '(<= 1 LSB, 30 LF samples away from both ends). A case is non-trivial when it has >= 2 windows or ns is not a multiple of 12.')
@@ -182,8 +184,10 @@ def _identity_filter(on):
         scipy.signal.sosfiltfilt = orig
 
 
-def _convert(version, D, nwindow, nsamples=None, rate=None, identity=False, layout=None):
-    """Run the real NP2Converter on a scratch copy of D.  Returns {'err': str} or {'files': [...], 'sos': sos, 'ns_read': int}."""
+def _convert(version, D, nwindow, nsamples=None, rate=None, identity=False, layout=None, prior=None):
+    """Run the real NP2Converter on a scratch copy of D.  Returns {'err': str} or {'files': [...], 'sos': sos, 'ns_read': int}.
+    `prior` = window sizes of earlier extractions made with the SAME converter object before the one that is returned:
+    conv.init_params(nwindow=prior[k], extra=...); conv.process(overwrite=k>0) ...; conv.init_params(nwindow=nwindow); conv.process(overwrite=True)."""
     import spikeglx
     from neuropixel import NP2Converter
     tmp = tempfile.mkdtemp(prefix='c12_')
@@ -193,13 +197,23 @@ def _convert(version, D, nwindow, nsamples=None, rate=None, identity=False, layo
             binf = _make_recording(tmp, version, D, rate, layout)
             conv = NP2Converter(binf, post_check=False, compress=False)
             ns_read = int(conv.sr.ns)
+            for k, pw in enumerate(prior or []):
+                try:
+                    conv.init_params(nsamples=nsamples, nwindow=pw, extra=f'_c12p{k}')
+                    conv.process(overwrite=(k > 0))
+                except Exception as e:
+                    for info in getattr(conv, 'shank_info', {}).values():
+                        for kk in ('lf_open_file', 'ap_open_file'):
+                            if kk in info:
+                                info[kk].close()
+                    return {'err': f'err prior-extraction {type(e).__name__}', 'ns_read': ns_read, 'msg': str(e)[:120]}
             try:
                 conv.init_params(nsamples=nsamples, nwindow=nwindow, extra='_c12')
             except AssertionError as e:
                 which = 'window' if 'nwindow' in str(e) else 'overlap' if 'overlap' in str(e) else 'taper' if 'taper' in str(e) else '?'
                 return {'err': f'err AssertionError {which}', 'ns_read': ns_read}
             try:
-                status = conv.process()
+                status = conv.process(overwrite=True) if prior else conv.process()
             except (ValueError, IndexError, AssertionError) as e:
                 for info in getattr(conv, 'shank_info', {}).values():
                     for k in ('lf_open_file', 'ap_open_file'):
@@ -473,7 +487,7 @@ def _tags(version, ns, w, ov, taper, extra=()):
 # ---------------------------------------------------------------------------------------------
 # correspondence
 # ---------------------------------------------------------------------------------------------
-def _structural_case(ctx, version, w, ns, extra_file, rate, sync_kind, seed, with_identity, lines, pending, tags, layout=None):
+def _structural_case(ctx, version, w, ns, extra_file, rate, sync_kind, seed, with_identity, lines, pending, tags, layout=None, prior=None):
     """Runs the real code now, queues the model requests; comparison happens after the Lean batch."""
     ns_file = ns + extra_file
     D = _content(ns_file, 'ramp', seed, sync_kind)
@@ -490,7 +504,14 @@ def _structural_case(ctx, version, w, ns, extra_file, rate, sync_kind, seed, wit
     lines.append(f'sync {nw_model} {ns} ' + (','.join(str(int(x)) for x in D[:ns, -1]) or '-'))
     lines.append(f'src {nw_model} {ns}')
     ident = _convert(version, D, w, nsamples=nsamples, rate=rate, identity=True, layout=layout) if with_identity else None
-    pending.append({'desc': desc, 'k0': k0, 'res': res, 'ident': ident, 'D': D, 'tags': tags, 'version': version, 'layout': layout})
+    reuse = reuse_ident = None
+    if prior:
+        # the same extraction as the last of a sequence on ONE converter object (history must not matter)
+        reuse = _convert(version, D, w, nsamples=nsamples, rate=rate, layout=layout, prior=prior)
+        if with_identity and seed % 2 == 0:
+            reuse_ident = _convert(version, D, w, nsamples=nsamples, rate=rate, identity=True, layout=layout, prior=prior)
+    pending.append({'desc': desc, 'k0': k0, 'res': res, 'ident': ident, 'D': D, 'tags': tags, 'version': version, 'layout': layout,
+                    'prior': prior, 'reuse': reuse, 'reuse_ident': reuse_ident})
 
 
 def _compare_structural(ctx, item, answers, taper):
@@ -512,13 +533,44 @@ def _compare_structural(ctx, item, answers, taper):
     else:
         model_n = a_src
     ctx.compare('count', dict(desc, op='count'), impl_n, model_n, nontrivial=nontriv, tags=('op=count',))
-    ident = item['ident']
+    if item.get('reuse') is not None:
+        _compare_reuse(ctx, item, a_files, a_sync, nontriv)
+    for ident, opname in ((item['ident'], 'volt-identity'), (item.get('reuse_ident'), 'volt-identity-reuse')):
+        _compare_identity(ctx, item, ident, opname, a_files, a_src, nontriv, taper)
+
+
+def _files_digest(res):
+    if 'err' in res:
+        return res['err']
+    return 'ok ' + ' | '.join(f'{f["key"]} bytes={f["nbytes"]} sha={_sha(f["raw"])}' for f in res['files'])
+
+
+def _compare_reuse(ctx, item, a_files, a_sync, nontriv):
+    """Second (or third) extraction by the same converter object: against the model (which knows no history) and, byte for byte,
+    against the extraction of the same parameters by a fresh object."""
+    desc, version = dict(item['desc'], prior=item['prior']), item['version']
+    reuse = item['reuse']
+    tg = ('reuse', f'prior_runs={len(item["prior"])}')
+    ctx.compare('files-reuse', dict(desc, op='files-reuse'), _canon_files(version, reuse, item.get('layout')), a_files, nontrivial=nontriv, tags=('op=files-reuse',) + tg)
+    ctx.compare('sync-reuse', dict(desc, op='sync-reuse'), _canon_sync(reuse), a_sync, nontrivial=nontriv, tags=('op=sync-reuse',))
+    d = dict(desc, op='bytes-reuse')
+    ctx.case(d, nontrivial=nontriv, tags=('op=bytes-reuse',))
+    a, b = _files_digest(reuse), _files_digest(item['res'])
+    if a != b:
+        ctx.mismatch('bytes-reuse', d, a, b + '   (same parameters, fresh converter object)')
+
+
+def _compare_identity(ctx, item, ident, opname, a_files, a_src, nontriv, taper):
+    desc, D, version = item['desc'], item['D'], item['version']
+    if opname.endswith('reuse'):
+        desc = dict(desc, prior=item.get('prior'))
+    ns = desc['ns']
     if ident is not None:
         # voltage columns with the filter replaced by the identity: LF[m, c] must be AP[src_m, chns_c] wherever the file-end taper is 1
         if 'err' in ident or not a_src.startswith('ok') or not a_files.startswith('ok'):
             impl_s = ident.get('err', 'ok')
             model_s = a_src if not a_src.startswith('ok') else 'ok'
-            ctx.compare('volt-identity', dict(desc, op='volt-identity'), impl_s.split(' n=')[0], model_s.split(' n=')[0], nontrivial=nontriv, tags=('op=volt-identity',))
+            ctx.compare(opname, dict(desc, op=opname), impl_s.split(' n=')[0], model_s.split(' n=')[0], nontrivial=nontriv, tags=('op=' + opname,))
             return
         src_tok = a_src.split('src=')[1]
         src = np.array([int(x) for x in src_tok.split(',')], dtype=int) if src_tok != '-' else np.zeros(0, int)
@@ -535,15 +587,15 @@ def _compare_structural(ctx, item, answers, taper):
                 model_parts.append(f'rows={len(src)} interior={int(keep.sum())} sha={_sha(D[src[keep]][:, chns_model[i]])}')
         while len(model_parts) < len(chns_model):
             model_parts.append('missing')
-        ctx.compare('volt-identity', dict(desc, op='volt-identity'), 'ok ' + ' | '.join(impl_parts), 'ok ' + ' | '.join(model_parts[:max(len(impl_parts), len(chns_model))]),
-                    nontrivial=nontriv, tags=('op=volt-identity', 'interior>0' if keep.any() else 'interior=0'))
+        ctx.compare(opname, dict(desc, op=opname), 'ok ' + ' | '.join(impl_parts), 'ok ' + ' | '.join(model_parts[:max(len(impl_parts), len(chns_model))]),
+                    nontrivial=nontriv, tags=('op=' + opname, 'interior>0' if keep.any() else 'interior=0'))
 
 
-def _numeric_check(version, D, w1, w2, rate=None, res1=None, layout=None):
+def _numeric_check(version, D, w1, w2, rate=None, res1=None, layout=None, prior=None):
     """The numeric half of the property on the real code: returns (None | failure text, stats)."""
     import scipy.signal
     ns = D.shape[0]
-    r1 = res1 or _convert(version, D, w1, rate=rate, layout=layout)
+    r1 = res1 or _convert(version, D, w1, rate=rate, layout=layout, prior=prior)
     r2 = _convert(version, D, w2, rate=rate, layout=layout) if w2 != w1 else r1
     stats = {}
     if 'err' in r1 or 'err' in r2:
@@ -594,7 +646,7 @@ def correspondence(ctx):
     fixed = [('NP2.1', ov + ratio, taper - 1), ('NP2.4', ov + ratio, taper), ('NP2.1', ov + ratio, ov + ratio + 1),
              ('NP2.4', 1200, 1200 + 3 * (1200 - ov) + 7), ('NP2.1', 1200, 2 * 1200), ('NP2.4', 2 * ov, 2 * ov + 1)]
     cases = [(v, w, ns, 'fixed') for v, w, ns in fixed]
-    for i in range(ctx.n(100, 900)):
+    for i in range(ctx.n(90, 800)):
         w, ns, kind = _gen_w_ns(rng, ov, taper, ratio, max_windows=ctx.n(16, 40))
         cases.append(('NP2.4' if rng.random() < 0.5 else 'NP2.1', w, ns, kind))
     for i, (version, w, ns, kind) in enumerate(cases):
@@ -612,7 +664,14 @@ def correspondence(ctx):
         if layout is not None:
             tags = tags + (f'nshanks={len(set(sh for sh, _ in layout))}',) + (('min_shank_size<=4',) if min(
                 sum(c for s2, c in layout if s2 == sh) for sh in set(s3 for s3, _ in layout)) <= 4 else ())
-        _structural_case(ctx, version, w, ns, extra_file, rate, sync_kind, seed, with_identity, lines, pending, tags, layout=layout)
+        prior = None
+        if ns >= taper and (rng.random() < 0.3 or (kind == 'fixed' and i % 2 == 1)):
+            # earlier extraction(s) with the same object, other window size(s)
+            prior = [int(x) for x in rng.choice([wp for wp in _windows(ov, ratio) if wp > ov and wp != w], size=1 if rng.random() < 0.8 else 2, replace=False)]
+            tags = tags + ('same-object-after-' + str(len(prior)),)
+        else:
+            tags = tags + ('fresh-object',)
+        _structural_case(ctx, version, w, ns, extra_file, rate, sync_kind, seed, with_identity, lines, pending, tags, layout=layout, prior=prior)
     # default window (nwindow=None -> 2 s): two windows
     for version in (['NP2.1'] if ctx.quick else ['NP2.1', 'NP2.4']):
         wdef = int(ctx.consts.get('CONV_WINDOW_SECS', 2)) * int(ctx.consts.get('CONV_FS_AP', 30000))
@@ -658,9 +717,14 @@ def correspondence(ctx):
         layout = _gen_layout(rng) if version == 'NP2.4' else None
         if layout is not None:
             desc['layout'] = layout
+        prior = None
+        if i % 3 == 2:      # the window-w1 extraction is the second one made by its converter object
+            prior = [int(ratio * rng.integers(ov // ratio + 2, ov // ratio + 300))]
+            desc['prior'] = prior
         D = _content(ns, kind, seed)
-        fail, stats = _numeric_check(version, D, w1, w2, layout=layout)
-        ctx.case(desc, nontrivial=True, tags=('op=numeric', 'content=' + kind, version + '-numeric', 'numeric-' + _layout_tag(version, layout)))
+        fail, stats = _numeric_check(version, D, w1, w2, layout=layout, prior=prior)
+        ctx.case(desc, nontrivial=True, tags=('op=numeric', 'content=' + kind, version + '-numeric', 'numeric-' + _layout_tag(version, layout),
+                                              'numeric-same-object' if prior else 'numeric-fresh-object'))
         for k in worst:
             worst[k] = max(worst[k], stats.get(k, 0.0))
         if fail:
@@ -719,7 +783,8 @@ def oracle(inp):
     rate = None if rate in (None, 'fixture') else rate
     D = _content(ns + extra, inp.get('content', 'white'), int(inp.get('seed', 0)), inp.get('sync', 'random'))
     layout = inp.get('layout') if version == 'NP2.4' else None
-    res = _convert(version, D, w1, nsamples=(ns if extra else None), rate=rate, layout=layout)
+    prior = [int(x) for x in (inp.get('prior') or []) if int(x) > ov and int(x) % ratio == 0] or None
+    res = _convert(version, D, w1, nsamples=(ns if extra else None), rate=rate, layout=layout, prior=prior)
     if 'err' in res:
         return f'conversion raised {res["err"][4:]}: {res.get("msg", "")}'
     info = _ap_meta_info(version, layout)
@@ -763,6 +828,18 @@ def oracle(inp):
             bad = int(np.where(got != want_sync)[0][0]) if got.shape == want_sync.shape else -1
             return (f'sync column of shank {sh}: LF sample {bad} is {int(got[bad])}, AP sync word at sample {12 * bad} is {int(want_sync[bad])}'
                     if bad >= 0 else f'sync column of shank {sh} has {got.shape[0]} samples, expected {want_sync.shape[0]}')
+    if prior:
+        # same code, same input, same parameters => same bytes, whatever the object did before
+        fresh = _convert(version, D, w1, nsamples=(ns if extra else None), rate=rate, layout=layout)
+        for f, g in zip(res['files'], fresh.get('files', [])):
+            if not np.array_equal(f['raw'], g['raw']):
+                a, b = _lf_matrix(f), _lf_matrix(g)
+                if a is None or b is None or a.shape != b.shape:
+                    return f'LF file of shank {f["key"][5:]}: {f["nbytes"]} bytes after earlier extraction(s) {prior} on the same object, {g["nbytes"]} bytes from a fresh object'
+                r, c = [int(x[0]) for x in np.where(a != b)]
+                return (f'LF file of shank {f["key"][5:]} written by the extraction with window {w1} that follows extraction(s) with window(s) {prior} on the same '
+                        f'NP2Converter object differs from the one a fresh object writes: {int((a != b).any(axis=1).sum())} of {a.shape[0]} LF samples differ, '
+                        f'first at LF sample {r} column {c}: {int(a[r, c])} vs {int(b[r, c])}')
     if w2 is not None or nrows > 2 * MARGIN_LF:
         fail, _ = _numeric_check(version, D[:ns], w1, w2 if w2 is not None else w1, rate=rate, res1=(res if extra == 0 else None), layout=layout)
         if fail:
@@ -778,6 +855,8 @@ def _neighbourhood():
         for w1, w2 in ((lo, 2 * lo + 24), (lo + ratio, 4 * lo + 48), (2 * lo + 24, lo)):
             for version in ('NP2.1', 'NP2.4'):
                 out.append({'version': version, 'ns': ns, 'nwindow': w1, 'nwindow2': w2, 'content': 'white', 'seed': ns})
+                if w1 == lo:   # a second extraction by the same converter object
+                    out.append({'version': version, 'ns': ns, 'nwindow': w1, 'nwindow2': w2, 'content': 'white', 'seed': ns, 'prior': [w2]})
             if w1 == lo:   # NP2.4 with channels unevenly spread over the shanks
                 out.append({'version': 'NP2.4', 'ns': ns, 'nwindow': w1, 'nwindow2': w2, 'content': 'white', 'seed': ns,
                             'layout': [list(b) for b in SPECIAL_LAYOUTS[(ns // 12) % 3]]})
@@ -795,6 +874,8 @@ def search(ctx, reasons):
                'rate': c.get('rate'), 'sync': c.get('sync', 'random')}
         if c.get('layout') is not None:
             inp['layout'] = c['layout']
+        if c.get('prior'):
+            inp['prior'] = c['prior']
         key = repr(sorted(inp.items(), key=lambda kv: kv[0]))
         if key not in seen:
             seen.add(key)
@@ -820,9 +901,20 @@ def search(ctx, reasons):
                              'size (<= 1 LSB) and within 1 LSB of whole-trace zero-phase low-pass + [::12] beyond 30 LF samples from the ends, meta data '
                              'declares 2500 Hz and the channel counts written, file opens with the shape of its content'),
                 'how': ('harness/props/c12.py oracle(input): scratch recording _content(ns, content, seed, sync) written next to the np2split fixture meta data, '
-                        'NP2Converter(ap_file, post_check=False, compress=False); init_params(nwindow=nwindow[, nsamples=ns]); process(); '
-                        'same again with nwindow2')}
+                        'conv = NP2Converter(ap_file, post_check=False, compress=False); [for p in input.prior: conv.init_params(nwindow=p, extra=...); '
+                        'conv.process(overwrite=...);] conv.init_params(nwindow=nwindow[, nsamples=ns], extra=...); conv.process(overwrite=bool(prior)); '
+                        'the LF files of this last call are examined; a fresh object with nwindow2 (and, with prior, a fresh object with nwindow) gives the comparison'),
+                'calls': _calls(inp)}
     return None
+
+
+def _calls(inp):
+    seq = ['conv = NP2Converter(ap_file, post_check=False, compress=False)']
+    for k, p in enumerate(inp.get('prior') or []):
+        seq += [f"conv.init_params(nwindow={p}, extra='_c12p{k}')", f'conv.process(overwrite={k > 0})']
+    ns_arg = f"nsamples={inp['ns']}, " if inp.get('file_extra') else ''
+    seq += [f"conv.init_params({ns_arg}nwindow={inp.get('nwindow')}, extra='_c12')", f"conv.process(overwrite={bool(inp.get('prior'))})"]
+    return seq
 
 
 def replay(ctx, rep):
